@@ -21,7 +21,10 @@ def run(ctx):
             rc, out, err = harness.run_driver(exes[cfg][0], None, args=['--trials', str(trials), '--seed', str(seed)], timeout=1800)
             fail = harness.classify_failure(rc, err)
             if fail:
-                ctx.violation('san:%s:%s' % (cfg, fail), 'alias driver %s: %s\n%s' % (cfg, fail, err[-2000:]), {'config': cfg, 'seed': seed, 'stderr': err[-3000:]})
+                # the process died inside a library operation (rows are printed as they complete: the one after the last row was in flight)
+                done = [m.group(1) + ' ' + m.group(2) for m in (ROW.match(l) for l in out.split('\n')) if m]
+                ctx.violation('san:%s:%s' % (cfg, fail), 'alias driver %s: %s in the row after "%s"\n%s' % (cfg, fail, done[-1] if done else '(first row)', err[-2000:]),
+                              {'config': cfg, 'seed': seed, 'stderr': err[-3000:], 'last_completed_row': done[-1] if done else None})
             n = 0
             for line in out.split('\n'):
                 m = ROW.match(line)
@@ -34,7 +37,7 @@ def run(ctx):
                 if bad:
                     ctx.violation('alias:%s:%s' % (op, pat), '%s with %s differs from the non-aliased call in %d of %d operand sets (first at trial %d, build %s, seed %d)'
                                   % (op, pat, bad, tried, first, cfg, seed), {'config': cfg, 'op': op, 'pattern': pat, 'seed': seed, 'trial': first, 'trials': trials})
-            if n < 140:
+            if n < 140 and not fail:
                 raise harness.HarnessError('alias driver produced only %d rows on %s (rc=%s): %s' % (n, cfg, rc, err[-500:]))
     ctx.rule = ('one row = (operation, aliasing pattern out=a / out=b / out=a=b as far as the signature permits); each row runs the operation with a distinct output and with the output '
                 'aliased on the same operand values (specials: zero, one, minus one, identity, z=1, all-ones; plus seeded random) and compares bytes for integers/field elements and '
